@@ -102,6 +102,9 @@ def compile_variant(spec, order, sym, compact, more_out, symbolic, opts, P, hist
     kw = dict(P) if more_out else {}
     if symbolic:
         kw["parameters"] = syms
+    if hist:
+        # compact and more_out given POSITIONALLY, in the documented order of to_function(net, compact, more_out, ...)
+        return eng.to_function(built.net, compact, more_out, **kw), built
     return eng.to_function(built.net, compact=compact, more_out=more_out, **kw), built
 
 
